@@ -69,7 +69,7 @@ func genC10(r *core.Rand, run int) *MuxScenario {
 func genProxiedRequest(r *core.Rand, id, limit int) ReqSpec {
 	combos := []struct{ proto, codec, method string }{
 		{"grpc", "proto", "unary"}, {"grpc", "proto", "client"}, {"grpc", "proto", "server"}, {"grpc", "proto", "bidi"}, {"grpc", "proto", "bidi"},
-		{"grpc", "json", "unary"}, {"grpc", "json", "bidi"}, {"grpcweb", "proto", "bidi"},
+		{"grpc", "json", "unary"}, {"grpc", "json", "bidi"}, {"grpcweb", "proto", "bidi"}, {"grpcwebtext", "proto", "bidi"}, {"grpcwebtext", "proto", "client"},
 		{"http", "json", "unary"}, {"http", "json", "client"}, {"http", "json", "server"}, {"http", "json", "bidi"},
 		{"http", "proto", "unary"}, {"http", "proto", "bidi"},
 	}
